@@ -5,6 +5,8 @@
 // input line:  P <id> <D> <size_1..D> <first_1..D> <nops> { <opname> <nargs> <args...> }
 // output line: {"id":..,"st":"ok","D":..,"sizes":[..],"ext":[[f,l]..],"ne":..,"empty":..,
 //               "size":..,"strides":[..],"cells":[..],"agree":{..},"lay":[[s,o,n]..],"base":..}
+#include "guard.hpp"
+
 #include <boost/multi/array.hpp>
 
 #include <cstdio>
@@ -219,27 +221,38 @@ template<int D> void observe(view_t<D> const& v, std::ostream& os) {
 		for(std::size_t k = 0; k != xf.size(); ++k) { os << (k ? "," : "") << '[' << xf[k] << ',' << xl[k] << ']'; }
 		os << ']';
 	}
-	std::vector<long> br; collect_br(v, br);
+	std::vector<long> br;
+	if(!guard::run([&] { collect_br(v, br); })) { os << ",\"cells\":null,\"cells_abort\":" << guard::last_json(); return; }
 	os << ",\"cells\":"; jlist(os, br);
 	os << ",\"agree\":{";
 	bool firstk = true;
-	auto report = [&](char const* name, std::vector<long> const& alt) {
+	auto path = [&](char const* name, auto&& body) {
+		std::vector<long> alt;
+		bool ok = guard::run([&] { body(alt); });
 		if(!firstk) os << ',';
 		firstk = false;
 		os << '"' << name << "\":";
-		if(alt == br) { os << "true"; } else { jlist(os, alt); }
+		if(!ok) { os << "{\"abort\":" << guard::last_json() << "}"; }
+		else if(alt == br) { os << "true"; }
+		else { jlist(os, alt); }
 	};
-	{ std::vector<long> x; collect_it(v, x); report("iter", x); }
-	{ std::vector<long> x; collect_rangefor(v, x); report("rangefor", x); }
-	{ std::vector<long> x; collect_call<D>(v, v, x); report("call", x); }
-	{ std::vector<long> x; collect_apply<D>(v, v, x); report("apply", x); }
-	{ std::vector<long> x; collect_cursor(v.home(), sz, x); report("cursor", x); }
-	{ std::vector<long> x; auto&& es = v.elements(); for(multi::size_t k = 0; k != es.size(); ++k) { x.push_back(cellno(es[k])); } report("elems_idx", x); }
-	{ std::vector<long> x; for(auto&& e : v.elements()) { x.push_back(cellno(e)); } report("elems_iter", x); }
-	{ std::vector<long> x; for(long k = 0; k != ne; ++k) { x.push_back(cellno(v.elements_at(k))); } report("elements_at", x); }
+	path("iter", [&](auto& x) { collect_it(v, x); });
+	path("rangefor", [&](auto& x) { collect_rangefor(v, x); });
+	path("call", [&](auto& x) { collect_call<D>(v, v, x); });
+	path("apply", [&](auto& x) { collect_apply<D>(v, v, x); });
+	path("cursor", [&](auto& x) { collect_cursor(v.home(), sz, x); });
+	path("elems_idx", [&](auto& x) { auto&& es = v.elements(); for(multi::size_t k = 0; k != es.size(); ++k) { x.push_back(cellno(es[k])); } });
+	path("elems_iter", [&](auto& x) { for(auto&& e : v.elements()) { x.push_back(cellno(e)); } });
+	path("front_back", [&](auto& x) { x = br; if(cellno(v.elements().front()) != br.front()) { x.front() = cellno(v.elements().front()); } if(cellno(v.elements().back()) != br.back()) { x.back() = cellno(v.elements().back()); } });
+#ifdef VERIF_ELEMENTS_AT
+	path("elements_at", [&](auto& x) { for(long k = 0; k != ne; ++k) { x.push_back(cellno(v.elements_at(k))); } });
+#endif
 	os << '}';
-	os << ",\"front\":" << cellno(v.elements().front()) << ",\"back\":" << cellno(v.elements().back());
-	os << ",\"esize\":" << static_cast<long>(v.elements().size());
+	{
+		long es = -1;
+		guard::run([&] { es = static_cast<long>(v.elements().size()); });
+		os << ",\"esize\":" << es;
+	}
 }
 
 template<int D, std::size_t... K>
@@ -264,11 +277,18 @@ template<int D> void run_program(long id, std::vector<long> const& sizes, std::v
 	try {
 		for(auto const& o : ops) {
 			any_view next;
+			bool fin = guard::run([&] {
 			std::visit([&](auto& v) {
 				using V = std::decay_t<decltype(v)>;
 				if constexpr(std::is_same_v<V, std::monostate> || std::is_same_v<V, elem0>) { throw unsupported{"op on element"}; }
 				else { apply_op<V::rank_v>(v, o, next); }
 			}, cur);
+			});
+			if(!fin) {
+				os << ",\"st\":\"abort\",\"at\":" << done << ",\"abort\":" << guard::last_json() << "}\n";
+				std::cout << os.str();
+				return;
+			}
 			// re-seat (assignment of views is deep)
 			std::visit([&](auto& nv) {
 				using V = std::decay_t<decltype(nv)>;
@@ -279,12 +299,15 @@ template<int D> void run_program(long id, std::vector<long> const& sizes, std::v
 			++done;
 		}
 		os << ",\"st\":\"ok\",";
+		bool fin = guard::run([&] {
 		std::visit([&](auto& v) {
 			using V = std::decay_t<decltype(v)>;
 			if constexpr(std::is_same_v<V, std::monostate>) { os << "\"D\":-1"; }
 			else if constexpr(std::is_same_v<V, elem0>) { os << "\"D\":0,\"sizes\":[],\"ne\":1,\"cells\":[" << cellno(v.p) << "]"; }
 			else { observe<V::rank_v>(v, os); }
 		}, cur);
+		});
+		if(!fin) { os << ",\"obs_abort\":" << guard::last_json(); }
 	} catch(unsupported const& u) {
 		os << ",\"st\":\"unsupported\",\"why\":\"" << u.why << "\",\"at\":" << done;
 	}
@@ -293,6 +316,7 @@ template<int D> void run_program(long id, std::vector<long> const& sizes, std::v
 }
 
 int main() {
+	guard::install();
 	std::ios::sync_with_stdio(false);
 	std::string line;
 	while(std::getline(std::cin, line)) {
@@ -310,8 +334,7 @@ int main() {
 			o.a.resize(na);
 			for(auto& x : o.a) { is >> x; }
 		}
-		// progress marker so that a crash can be attributed to a program
-		std::fprintf(stderr, "@%ld\n", id);
+		guard::context() = id;
 		switch(D) {
 			case 1: run_program<1>(id, sizes, firsts, ops); break;
 			case 2: run_program<2>(id, sizes, firsts, ops); break;
